@@ -57,6 +57,7 @@ fn c19_db_law_is_10_pow_db_over_20() {
 	let d: f32 = kani::any();
 	kani::assume(!d.is_nan() && d > -60.0 && d != 0.0);
 	let a = Decibels(d).as_amplitude();
+	if cfg!(kv_native) { assert!(a.to_bits() == 10.0f32.powf(d / 20.0).to_bits(), "native: amplitude == 10^(dB/20)"); return; }
 	unsafe {
 		assert!(KV_SPY_CALLS == 1 && KV_SPY_B == 10.0 && KV_SPY_E.to_bits() == (d / 20.0).to_bits());
 		assert!(a.to_bits() == KV_SPY_R.to_bits());
